@@ -225,6 +225,10 @@ class World(object):
             a += ["--motd", c["motd"]]
         if not c.get("autoping", False):
             a += ["--websocket-protocol-option", "autoPingInterval=0"]
+        if c.get("log_fd"):
+            # --log-fd: a fresh descriptor for every incarnation (the server wraps and owns it)
+            fd = os.open(os.path.join(self.dir, "requests.log"), os.O_WRONLY | os.O_CREAT | os.O_APPEND, 0o600)
+            a += ["--log-fd", str(fd)]
         return a
 
     def expected_welcome(self):
